@@ -50,6 +50,7 @@ type FnContract struct {
 	KeyName  string // name of the key variable in the template
 	KeyType  string
 	Keys     []int64
+	QuickKeys []int64 // subset of Keys for the quick tier
 	Consts   map[string]Val // extra constant bindings (instantiated table key)
 	Ghosts   [][2]string // ghost name type: universally quantified ghost integers (fresh symbolic constants)
 	Cases    *Clause  // cases <expr> lo..hi : every post obligation is split into one query per value of expr
@@ -191,7 +192,7 @@ func parseClause(text string) (Clause, error) {
 	return cl, nil
 }
 
-var keywords = map[string]bool{"func": true, "props": true, "spec": true, "requires": true, "ensures": true, "assigns": true, "loop": true,
+var keywords = map[string]bool{"quickkeys": true, "func": true, "props": true, "spec": true, "requires": true, "ensures": true, "assigns": true, "loop": true,
 	"invariant": true, "decreases": true, "unroll": true, "opt": true, "trusted": true, "let": true, "modifies": true, "ghost": true, "cases": true, "table": true, "key": true, "pred": true, "readonly": true, "stable": true}
 
 // LoadContracts parses every verif_contracts*.go file of the loaded module packages.
@@ -356,6 +357,29 @@ func (db *ContractDB) parseLines(p *Program, pkgPath, file string, lines []strin
 					}
 					for k := lo; k <= hi; k++ {
 						cur.Keys = append(cur.Keys, k)
+					}
+				}
+			}
+		case "quickkeys":
+			// quickkeys <a,b..c,...>: the subset of a table's keys verified by the quick tier (thorough: all keys)
+			if cur != nil {
+				for _, part := range strings.Split(strings.Join(strings.Fields(it.rest), ""), ",") {
+					if part == "" {
+						continue
+					}
+					r := strings.SplitN(part, "..", 2)
+					lo, err1 := strconv.ParseInt(r[0], 0, 64)
+					hi := lo
+					var err2 error
+					if len(r) == 2 {
+						hi, err2 = strconv.ParseInt(r[1], 0, 64)
+					}
+					if err1 != nil || err2 != nil {
+						db.errf("%s: %s: bad quickkeys range %q", file, cur.Name, part)
+						continue
+					}
+					for k := lo; k <= hi; k++ {
+						cur.QuickKeys = append(cur.QuickKeys, k)
 					}
 				}
 			}
